@@ -20,17 +20,22 @@ type Case struct {
 	Hist   *vlib.HistCase `json:"hist"` // confirmed prefix
 	T      vlib.Step      `json:"t"`    // the transaction that is rolled back
 	Ending string         `json:"ending"` // cancel | timeout
+	// Noise: calls naming another transaction id (all refused) between T and its ending
+	Noise []string `json:"noise,omitempty"` // cancel-foreign | confirm-foreign
 }
 
 var prop = vlib.Prop[*Case]{
 	ID: "C05",
-	Rule: "case = confirmed prefix history (0..6 transactions as in C01) + one transaction T (single/multi-intent; create, change, shrink, re-prioritise, delete, orphan; shadowed or ruling) ended by TransactionCancel or by expiry of a 30 ms rollback timer; " +
+	Rule: "case = confirmed prefix history (0..6 transactions as in C01) + one transaction T (single/multi-intent; create, change, shrink, re-prioritise, delete, orphan; shadowed or ruling) ended by TransactionCancel or by expiry of a 30 ms rollback timer, optionally after refused Confirm / Cancel calls naming another id; " +
 		"oracle = snapshot round trip: INTENDED dump (paths, owners, priorities, values) after the rollback equals the dump before T, TransactionCancel returns nil, and every path T touched (its new content and the stored content of the intents it names) has on the recording device the value or absence it had before T; " +
 		"non-trivial = T modifies >=1 pre-existing intent and changes the device or the store; distinct = distinct case JSON",
 	Gen: func(t *rapid.T) *Case {
 		o := vlib.HistGenOpts{Universe: vlib.UniPlainNA, MinSteps: 0, MaxSteps: 6, WithInit: true, AllowOrphan: true}
 		c := &Case{Hist: vlib.GenHistCase(t, o), T: vlib.GenStep(t, o)}
 		c.Ending = rapid.SampledFrom([]string{"cancel", "cancel", "cancel", "timeout"}).Draw(t, "ending")
+		if rapid.IntRange(0, 3).Draw(t, "noise") == 0 {
+			c.Noise = rapid.SliceOfN(rapid.SampledFrom([]string{"cancel-foreign", "confirm-foreign"}), 1, 2).Draw(t, "noise-calls")
+		}
 		return c
 	},
 	Exec: Exec,
@@ -105,6 +110,15 @@ func Exec(c *Case) (nontrivial bool, labels []string, fail *vlib.Failure) {
 	nontrivial = modifiesExisting && changed
 	where := fmt.Sprintf("T=%s ended by %s", describe(res), c.Ending)
 
+	for _, nz := range c.Noise {
+		// refused calls of another client must not change how T ends (their own effect is judged by C06)
+		lab["noise-"+nz] = true
+		if nz == "cancel-foreign" {
+			_ = h.DS.TransactionCancel(ctx, "someone-else")
+		} else {
+			_ = h.DS.TransactionConfirm(ctx, "someone-else")
+		}
+	}
 	switch c.Ending {
 	case "cancel":
 		if err := h.DS.TransactionCancel(ctx, res.TxID); err != nil {
